@@ -50,12 +50,12 @@ theorem C07_input_site (tc : TestCase) (entries : List REntry) (changed : List B
     split at h <;> cases h; rfl
 
 /-- **Expected path.** Same law; `Z` and `X` pass through. -/
-theorem C07_expected_site (tc : TestCase) (entries : List REntry) (col sig : Nat)
-    (s : Signal) (e : ExpEntry) (hs : tc.signals[sig]? = some s)
-    (h : expectedFor tc entries (.entry col sig) = .ok e) :
+theorem C07_expected_site (tc : TestCase) (entries : List REntry) (xcols : List Nat) (col sig : Nat)
+    (s : Signal) (e : ExpEntry) (hs : tc.signals[sig]? = some s) (hx : xcols.contains col = false)
+    (h : expectedFor tc entries xcols (.entry col sig) = .ok e) :
     (∀ n, entries[col]? = some (.num n) → e.value = .val (n &&& bitMask s.bits)) ∧
     (entries[col]? = some .z → e.value = .z) ∧ (entries[col]? = some .x → e.value = .x) := by
-  simp only [expectedFor, hs] at h
+  simp only [expectedFor, hs, hx, Bool.false_eq_true, if_false] at h
   refine ⟨?_, ?_, ?_⟩
   · intro n hn; simp only [hn] at h; cases h; rfl
   · intro hz; simp only [hz] at h; cases h; rfl
@@ -64,11 +64,11 @@ theorem C07_expected_site (tc : TestCase) (entries : List REntry) (col sig : Nat
 /-- every element of the vectors handed out is produced by the two site functions -/
 theorem C07_vectors (tc : TestCase) (entries : List REntry) (changed : List Bool)
     (ins : List InEntry) (exps : List ExpEntry)
-    (h1 : genInputs tc entries changed = .ok ins) (h2 : genExpected tc entries = .ok exps) :
+    (xcols : List Nat) (h1 : genInputs tc entries changed = .ok ins) (h2 : genExpected tc entries xcols = .ok exps) :
     (ins.length = tc.inIdx.length ∧
       ∀ i (h : i < tc.inIdx.length) (h' : i < ins.length), inputFor tc entries changed tc.inIdx[i] = .ok ins[i]) ∧
     (exps.length = tc.expIdx.length ∧
-      ∀ i (h : i < tc.expIdx.length) (h' : i < exps.length), expectedFor tc entries tc.expIdx[i] = .ok exps[i]) :=
+      ∀ i (h : i < tc.expIdx.length) (h' : i < exps.length), expectedFor tc entries xcols tc.expIdx[i] = .ok exps[i]) :=
   ⟨mapRes_ok _ _ _ h1, mapRes_ok _ _ _ h2⟩
 
 /-- **Virtual signals are 64 bits wide**: binding appends them with `bits = 64` (a caller cannot
